@@ -48,6 +48,10 @@ STUBS = {
     # a failing formatter that explains itself on stderr (several lines, as rustfmt does)
     "exit1_with_diagnostics": "#!/bin/sh\ncat >/dev/null\nprintf 'error: expected item\\n --> <stdin>:1:1\\n  |\\n1 | oops\\n' >&2\nexit 1\n",
     "status1_complete_garbage": "#!/bin/sh\ncat >/dev/null\nprintf 'pub fn unrelated() {}\\n'\nexit 1\n",
+    # a working formatter with another house style: a banner comment and deep indentation - the same program, but several
+    # times longer than its one-line input (and, for big modules, far more than a pipe buffer longer)
+    "verbose_style": "#!/bin/sh\ni=0; while [ $i -lt 300 ]; do echo '// generated file - do not edit - formatted with the house style'; i=$((i+1)); done\n"
+                     "%s \"$@\" | sed 's/^/                                /'\n",
 }
 ONLY_BIG = {"exit0_partial_without_reading_all"}     # for small inputs the whole input fits the pipe: the stub is then a lying formatter, outside the property
 # model outcome per fault: (constructor term for small output, for big output), expected use_formatted
@@ -69,6 +73,7 @@ MODEL = {
     "exit0_partial_without_reading_all": ("Ran WOk Exit0 true false", "Ran WErr Exit0 true false"),
     "exit1_with_diagnostics": ("Ran WOk ExitN true true",) * 2,
     "status1_complete_garbage": ("Ran WOk ExitN true false",) * 2,
+    "verbose_style": ("Ran WOk Exit0 true false",) * 2,
 }
 
 
@@ -106,7 +111,7 @@ def run(tier, seed, replay):
     violations, broken, evals, samples, dist = [], [], 0, [], {}
     coq_items = []
     for fault, script in STUBS.items():
-        if fault in ("real", "slow") and not REAL_RUSTFMT:
+        if fault in ("real", "slow", "verbose_style") and not REAL_RUSTFMT:
             continue
         stubdir = os.path.join(workdir, "stub_" + fault)
         sh(["rm", "-rf", stubdir])
